@@ -136,8 +136,8 @@ def _wl(tier, seed):
            "vsc.model.expr_bin_model.ExprBinModel.width", "vsc.model.expr_bin_model.ExprBinModel.is_signed"],
           bin_cases, replay="api", api=bin_api, timeout_ms=60000,
           note="ExprBinModel: 16 operators x operand signedness x child kind (self-sized / context-sized) x operand widths "
-               "(tier set)^2 x incoming context {-1, 1, max+1, 64, 65}; relational nodes are built in contexts <= their own "
-               "operand width (Boolean composition), wider contexts for a comparison are outside the stated R-EXPR")
+               "(tier set)^2 x incoming context {-1, 1, max+1, 64, 65} (comparisons: {-1, 1}; a comparison is a self-sized "
+               "unsigned 1-bit operand of its parent, which is the child kind 'self' of width 1)")
 def c_bin_build(c, op, ls, rs, lk, rk, tier_ws):
     from vsc.model.expr_bin_model import ExprBinModel
     from vsc.model.bin_expr_type import BinExprType
@@ -171,7 +171,9 @@ def c_bin_build(c, op, ls, rs, lk, rk, tier_ws):
                         goal = z3.Implies(ext(R.node.term, W, sgn) != 0, goal)
                     c.check("node term == R-EXPR(l %s r) for all operand values" % op, goal, info=tag)
                 c.check("width() == 1 / max(lw, rw)", e.width() == (1 if op in REL else m), info=tag)
-                c.check("is_signed() == both operands signed", e.is_signed() is sgn, info=tag)
+                c.check("is_signed(): an arithmetic/bitwise node is signed iff both operands are; the result of a comparison is an "
+                        "unsigned single bit (a parent that widens it must zero-extend: true is 1, never -1)",
+                        e.is_signed() is (False if op in REL else sgn), info=tag)
 
 
 def lit_cases(tier, seed):
